@@ -394,7 +394,7 @@ func (r *Report) finish(start time.Time) int {
 		"govc's encoding of SSA instructions into SMT-LIB (DESIGN.md 3.3)",
 		"SMT solvers: z3 5.1.0 (z3-new), z3 4.8.12, cvc5 1.0.3 - unsat from any one is believed",
 	}
-	var asl []string
+	asl := []string{}
 	for a := range assumptions {
 		asl = append(asl, a)
 	}
